@@ -32,6 +32,9 @@ def run(cmd, cwd=wt, timeout=3000):
     t0 = time.time()
     p = subprocess.run(cmd, cwd=cwd, env=env, stdout=subprocess.PIPE, stderr=subprocess.STDOUT, text=True, timeout=timeout, shell=isinstance(cmd, str))
     log.append("$ %s   [exit %d, %.0fs]\n%s\n" % (cmd if isinstance(cmd, str) else " ".join(cmd), p.returncode, time.time() - t0, p.stdout[-3000:]))
+    if p.returncode != 0 and len(p.stdout) > 3000:
+        # keep the whole output of a failing long command (e.g. which test was running when the suite timed out)
+        open("/tmp/confirm-%s-fail-%d.log" % (a.id, len(log)), "w").write(p.stdout)
     return p.returncode, p.stdout
 
 
